@@ -111,7 +111,7 @@ func c02Observe(st *vTrieState) string {
 func TestVerif_C02(t *testing.T) {
 	r := verifmc.NewReport("C02", "inmemory-omap", "model_checking")
 	defer r.Write()
-	r.Rule = "BFS over put/delete/clearPrefix/clearPrefixLimit histories on the real InMemoryTrie (10 keys forcing shared nibble prefixes, prefixes 10/1000 with zero low nibble, limits 0..n+1); in every state Get/NextKey on 18 keys, GetKeysWithPrefix on 16 prefixes, Entries and a full iterator walk are compared with an ordered map; limited clears compare (deleted, allDeleted)"
+	r.Rule = "BFS over put/delete/clearPrefix/clearPrefixLimit histories on the real InMemoryTrie (10 keys forcing shared nibble prefixes, values 01/02 and the empty value on the keys that are prefixes of others, prefixes 10/1000 with zero low nibble, limits 0..n+1); in every state Get/NextKey on 18 keys, GetKeysWithPrefix on 16 prefixes, Entries and a full iterator walk are compared with an ordered map; limited clears compare (deleted, allDeleted)"
 	vals := [][]byte{{0x01}, {0x02}}
 	var base []verifmc.Op
 	for _, k := range c02Keys {
@@ -119,6 +119,11 @@ func TestVerif_C02(t *testing.T) {
 	}
 	for _, k := range c02Keys[:4] {
 		base = append(base, vTrieOp{kind: "put", k: k, v: vals[1]})
+	}
+	// the EMPTY value on the keys that are prefixes of other keys (they sit on branch nodes): a present
+	// key whose value has length 0 is not an absent key
+	for _, k := range c02Keys[:4] {
+		base = append(base, vTrieOp{kind: "put", k: k, v: []byte{}})
 	}
 	for _, k := range append(append([][]byte{}, c02Keys...), []byte{0x23}, []byte{0x15}, []byte{0x00, 0x00, 0x00}) {
 		base = append(base, vTrieOp{kind: "delete", k: k})
